@@ -278,24 +278,46 @@ def c06_async(oi: int, fail: int, waiting: bool) -> bool:
 REPLY_KINDS = ('own', 'stale', 'foreign', 'noid', 'dup_own', 'garbage_json', 'silence')
 
 
-def c06_client(k1: int, k2: int, k3: int, resend: bool) -> bool:
+def c06_client(k1: int, k2: int, k3: int, resend: bool, stall: int) -> bool:
     """
     CircusClient.call against a scripted socket: a sequence of up to three replies (own id, stale id of an earlier
     call, foreign id, no id, duplicate of own) then silence.  It returns only the reply bearing this call's id,
     otherwise reports a timeout; a re-sent message dict gets a fresh id.
 
-    pre: 0 <= k1 < len(REPLY_KINDS) and 0 <= k2 < len(REPLY_KINDS) and 0 <= k3 < len(REPLY_KINDS)
+    stall: the client process is descheduled for longer than the call timeout while it handles the stall-th reply
+    (0 = never); whatever clock the client consults is virtual, and a poll without a finite timeout on an empty
+    socket never returns (zmq semantics: None or a negative timeout waits for ever).
+
+    pre: 0 <= k1 < len(REPLY_KINDS) and 0 <= k2 < len(REPLY_KINDS) and 0 <= k3 < len(REPLY_KINDS) and 0 <= stall <= 3
     post: _
     """
     import json
+    import time as _time
     import circus.client as cc
     from circus.exc import CallError
     k1 = rt.pick(k1, len(REPLY_KINDS))
     k2 = rt.pick(k2, len(REPLY_KINDS))
     k3 = rt.pick(k3, len(REPLY_KINDS))
+    stall = rt.pick(stall, 4)
     script = [REPLY_KINDS[x] for x in (k1, k2, k3)]
     sent = []
-    state = {'queue': [], 'prev_ids': []}
+    state = {'queue': [], 'prev_ids': [], 'now': 5000.0, 'recvs': 0}
+
+    class Hang(Exception):
+        pass
+
+    class FakeTime(object):
+        def time(self):
+            return state['now']
+
+        def monotonic(self):
+            return state['now']
+
+        def sleep(self, d):
+            state['now'] += d
+
+        def __getattr__(self, n):
+            return getattr(_time, n)
 
     class Sock(object):
         def setsockopt(self, *a):
@@ -328,6 +350,8 @@ def c06_client(k1: int, k2: int, k3: int, resend: bool) -> bool:
             state['prev_ids'].append(doc['id'])
 
         def recv(self):
+            state['recvs'] += 1
+            state['now'] += 1.5 if state['recvs'] == stall else 0.0001
             return state['queue'].pop(0)
 
         def close(self):
@@ -339,8 +363,13 @@ def c06_client(k1: int, k2: int, k3: int, resend: bool) -> bool:
         def register(self, *a):
             pass
 
-        def poll(self, timeout):
-            return [(sock, 1)] if state['queue'] else []
+        def poll(self, timeout=None):
+            if state['queue']:
+                return [(sock, 1)]
+            if timeout is None or timeout < 0:
+                raise Hang('poll(%r) on a socket nothing will ever arrive on' % (timeout,))
+            state['now'] += timeout / 1000.0
+            return []
 
     class Ctx(object):
         def socket(self, kind):
@@ -348,6 +377,9 @@ def c06_client(k1: int, k2: int, k3: int, resend: bool) -> bool:
     old_poller = cc.zmq.Poller
     old_conn = cc.get_connection
     cc.get_connection = lambda s, e, *a: None
+    old_time = getattr(cc, 'time', None)
+    if old_time is not None:
+        cc.time = FakeTime()             # the pinned client consults no clock; if a version does, it gets the virtual one
     try:
         cl = cc.CircusClient(context=Ctx(), endpoint='tcp://127.0.0.1:1', timeout=1.0)
         cl.poller = Poller()
@@ -355,11 +387,15 @@ def c06_client(k1: int, k2: int, k3: int, resend: bool) -> bool:
         ok = True
         rounds = 2 if resend else 1
         for rnd in range(rounds):
+            state['recvs'] = 0
             try:
                 res = cl.call(msg)
                 got = res
             except CallError as e:
                 got = ('CallError', str(e))
+            except Hang as e:
+                rt.note('round %d script %r stall at reply %d: call never returns -- %s', rnd, script, stall, e)
+                return rt.verdict(False)
             my_id = sent[-1]['id']
             # expected by an independent reading of the script
             exp = None
@@ -387,6 +423,8 @@ def c06_client(k1: int, k2: int, k3: int, resend: bool) -> bool:
     finally:
         cc.zmq.Poller = old_poller
         cc.get_connection = old_conn
+        if old_time is not None:
+            cc.time = old_time
 
 
 # ---------------------------------------------------------------------------------------------
@@ -474,7 +512,8 @@ def plan(tier):
         Cond('c06_async', budget=240 if q else 900, twins=1,
              bounds={'operation': 'S%r' % (OPS,), 'fail': 'S: which spawn raises an unexpected exception {none, 1st, 2nd, 3rd}', 'waiting': 'S{False, True}'}),
         Cond('c06_client', budget=120 if q else 600, twins=1,
-             bounds={'k1,k2,k3': 'S%r' % (REPLY_KINDS,), 'resend': 'S{False, True}: the same message dict is sent again'}),
+             bounds={'k1,k2,k3': 'S%r' % (REPLY_KINDS,), 'resend': 'S{False, True}: the same message dict is sent again',
+                     'stall': 'S{never, while handling reply 1 / 2 / 3}: the client is descheduled for 1.5 x its timeout'}),
         Cond('c06_bytes', kind='hunt', shards=[{'maxlen': 3}] if q else [{'maxlen': 3}, {'maxlen': 5}, {'maxlen': 7}],
              budget=60 if q else 900, bounds={'msg': 'R: any byte string, len <= maxlen'}),
     ]
